@@ -381,3 +381,98 @@ func errSource(p *an.Prog, v ssa.Value) string {
 	}
 	return p.Desc(v)
 }
+
+// pairedInIteration: after instruction site (inside a loop or not), neither the loop header of
+// site's loop nor a success return may be reached without passing a call to set. Blocks guarded
+// by an atom satisfying excuse count as satisfied (the obligation does not apply there).
+func pairedInIteration(c *report.Ctx, key string, site ssa.Instruction, set map[*ssa.Function]bool, what string, excuse func(an.Atom) bool, excuseWhy string) {
+	p := c.P
+	b := site.Block()
+	idx := 0
+	for i, in := range b.Instrs {
+		if in == site {
+			idx = i + 1
+		}
+	}
+	hdr := loopHeaderOf(b)
+	cut := cutCalls(p, set)
+	excused := false
+	s := &an.Search{P: p, Fn: b.Parent(),
+		Cut: func(in ssa.Instruction) bool {
+			if cut(in) {
+				return true
+			}
+			return false
+		},
+		GoalBlock: func(nb, pred *ssa.BasicBlock) bool {
+			return hdr != nil && nb == hdr
+		},
+		GoalReturn: func(r *ssa.Return, pred *ssa.BasicBlock) bool {
+			return p.ClassifyReturn(r, pred) != an.RetError
+		},
+	}
+	if excuse != nil {
+		inner := s.Cut
+		s.Cut = func(in ssa.Instruction) bool {
+			if inner(in) {
+				return true
+			}
+			// first instruction of an excused block cuts the path
+			if in == in.Block().Instrs[0] && in.Block() != b && an.AnyAtom(p.Guards(in.Block()), excuse) {
+				excused = true
+				return true
+			}
+			return false
+		}
+	}
+	w := s.Run(b, idx, nil)
+	if w != nil {
+		c.Fail(key, "after "+calleeName(p, site)+" the iteration/function can complete successfully without "+what, posOf(c, site), w...)
+		return
+	}
+	d := "always followed by " + what
+	if excused {
+		d += " (not required where " + excuseWhy + ")"
+	}
+	c.OK(key, d, posOf(c, site))
+}
+
+// fieldLoads lists loads/addresses of field fname of named struct type in f.
+func fieldReads(f *ssa.Function, named *types.Named, fname string) []ssa.Instruction {
+	var out []ssa.Instruction
+	an.Instrs(f, func(in ssa.Instruction) {
+		switch x := in.(type) {
+		case *ssa.FieldAddr:
+			if n := an.NamedOf(x.X.Type()); n != nil && n.Obj() == named.Obj() && n.Underlying().(*types.Struct).Field(x.Field).Name() == fname {
+				// a FieldAddr used only as a store target is a write, not a read
+				onlyStore := true
+				for _, r := range *x.Referrers() {
+					if st, ok := r.(*ssa.Store); ok && st.Addr == ssa.Value(x) {
+						continue
+					}
+					onlyStore = false
+				}
+				if !onlyStore {
+					out = append(out, in)
+				}
+			}
+		case *ssa.Field:
+			if n := an.NamedOf(x.X.Type()); n != nil && n.Obj() == named.Obj() && n.Underlying().(*types.Struct).Field(x.Field).Name() == fname {
+				out = append(out, in)
+			}
+		}
+	})
+	return out
+}
+
+// outerLoopHeader returns the header of the innermost loop that strictly contains loop header h.
+func outerLoopHeader(h *ssa.BasicBlock) *ssa.BasicBlock {
+	for x := h.Idom(); x != nil; x = x.Idom() {
+		for _, pr := range x.Preds {
+			if x.Dominates(pr) && loopContains(x, pr, h) {
+				return x
+			}
+		}
+	}
+	return nil
+}
